@@ -764,3 +764,63 @@ Example c14_example_small_file :
          (mkSink [] (repeat Full 8 ++ [Fail 6%N]) 0))
   = [Ok; Ok; Err 6%N].
 Proof. vm_compute. reflexivity. Qed.
+
+(* ----------------------------------------------------------------------------------------- *)
+(* WAVE 10 -- the FASTA index (fai) writer, FULL statement.  NV.Sinks.FaiCalls gives
+   fai::io::Writer::write_index as the actual sequence of write_all calls: per record
+   write_all(name), then the nine write_all calls io::Write::write_fmt makes for
+   writeln!("\t{}\t{}\t{}\t{}") (four TABs, four decimal integers, the LF); the BYTES are C17's
+   NV.Index.TextIndex.w_fai (read-only), whose reader C17 proved to round-trip (fai_roundtrip). *)
+From NV Require Import Base.Decimal Index.TextIndex Index.TextIndexProofs Sinks.FaiCalls Sinks.FaiCallsProofs.
+Close Scope N_scope.
+
+(* the call boundaries add up to C17's text layout; the encoder has no error of its own *)
+Theorem c14_fai_calls_are_layout :
+  forall l, ix_out (c_fai l) = w_fai l /\ ix_clean (c_fai l) = true.
+Proof. exact c_fai_out. Qed.
+Print Assumptions c14_fai_calls_are_layout.
+
+(* one write_index call on any sink, every fault script: Ok => the destination holds exactly the
+   file, which the fai reader decodes to the records written; a consumed Fail e => Err e; short
+   writes / Interrupted only => Ok (hence byte-identical); always a prefix of the file *)
+Theorem c14_fai_write_index :
+  forall l, Forall fai_ok l -> forall s r s',
+    fai_write_index l s = (r, s') ->
+    (r = Ok -> sbytes s' = sbytes s ++ w_fai l /\ (sbytes s = [] -> read_fai (sbytes s') = Some l)) /\
+    (forall c e, sscript s = c ++ sscript s' -> In (Fail e) c -> e <> e_interrupted -> r = Err e) /\
+    (no_fail (sscript s) -> r = Ok) /\
+    (exists p, sbytes s' = sbytes s ++ p /\ SinkProofs.prefix p (w_fai l)).
+Proof. exact fai_write_index_property. Qed.
+Print Assumptions c14_fai_write_index.
+
+(* the converse, for ANY records (no well-formedness premise): the model never runs out of fuel;
+   an Err e is the last event the call consumed, a Fail e of the script, everything consumed before
+   it being Full / Short / Interrupted events -- with the clause above: Err e <=> the destination
+   refused with e; always a prefix *)
+Theorem c14_fai_error_comes_from_sink :
+  forall l s r s', fai_write_index l s = (r, s') ->
+    r <> OutOfFuel /\
+    (forall e, r = Err e -> exists c, sscript s = c ++ Fail e :: sscript s' /\ benign c) /\
+    (r = Ok -> exists c, sscript s = c ++ sscript s' /\ benign c) /\
+    (exists p, sbytes s' = sbytes s ++ p /\ SinkProofs.prefix p (w_fai l)).
+Proof. exact fai_write_index_err_from_sink. Qed.
+Print Assumptions c14_fai_error_comes_from_sink.
+
+(* for EVERY index k of the destination's write calls failing (ix_live = the calls that carry at
+   least one byte: a write_all of an empty name makes none): Err e after exactly k + 1 inner calls,
+   the destination holds exactly the first k buffers *)
+Theorem c14_fai_fail_at_every_call :
+  forall l k, k < length (ix_live (c_fai l)) ->
+  forall e rest, e <> e_interrupted ->
+  exists p, fai_write_index l (mkSink [] (repeat Full k ++ Fail e :: rest) 0) = (Err e, mkSink p rest (k + 1))
+            /\ p = concat (firstn k (map ic_out (ix_live (c_fai l)))) /\ SinkProofs.prefix p (w_fai l).
+Proof. exact fai_fail_at_call. Qed.
+Print Assumptions c14_fai_fail_at_every_call.
+
+(* ten destination calls per record when every name is non-empty (nine for a record with an
+   empty name: c_fai_rec_live_len) *)
+Theorem c14_fai_ten_calls_per_record :
+  forall l, Forall (fun r => f_name r <> []) l ->
+    ix_live (c_fai l) = c_fai l /\ length (c_fai l) = 10 * length l.
+Proof. exact c_fai_live_named. Qed.
+Print Assumptions c14_fai_ten_calls_per_record.
